@@ -52,7 +52,7 @@ theorem flush_delivers_all_pending {c : Cfg} {s s' : St} {rs : List (Nat × List
 /-- Non-vacuity of the batching theorems: two invocations of resolver 7 and one of resolver 9 are
     flushed in one wave, one call each, positions kept. -/
 example :
-    (match runFrom ⟨true⟩ init [.batch 7 100 0, .batch 9 101 1, .batch 7 102 2, .idle,
+    (match runFrom ⟨true⟩ init [.batch 7 100 0 none, .batch 9 101 1 none, .batch 7 102 2 none, .idle,
         .flush [(7, [⟨1, false⟩, ⟨2, false⟩]), (9, [⟨3, false⟩])]] 0 with
      | .ok s => some (s.calls.map (fun c => (c.wave, c.key, c.items, c.dests)), s.delivered.map (fun x => (x.1, x.2.val)))
      | .error _ => none) =
@@ -140,8 +140,8 @@ theorem idle_terminates {c : Cfg} {s s' : St} {l : Label} (h : Reachable c s) (h
     (hp : s.phase = .top ∨ s.phase = .drain) (hl : l ≠ .idleRet) : measure s' < measure s := by
   apply measure_step h.idsOK hs
   cases l with
-  | go t => obtain ⟨_, hph, _⟩ := step_go hs; rcases hp with hp | hp <;> simp [hph] at hp
-  | batch k i p => obtain ⟨_, hph, _⟩ := step_batch hs; rcases hp with hp | hp <;> simp [hph] at hp
+  | go t dep => obtain ⟨_, hph, _⟩ := step_go hs; rcases hp with hp | hp <;> simp [hph] at hp
+  | batch k i p dep => obtain ⟨_, hph, _⟩ := step_batch hs; rcases hp with hp | hp <;> simp [hph] at hp
   | chain t ps => obtain ⟨_, hph, _⟩ := step_chain hs; rcases hp with hp | hp <;> simp [hph] at hp
   | idle => obtain ⟨_, hph, _⟩ := step_idle hs; rcases hp with hp | hp <;> simp [hph] at hp
   | ret => obtain ⟨_, hph, _⟩ := step_ret hs; rcases hp with hp | hp <;> simp [hph] at hp
@@ -179,8 +179,8 @@ theorem no_blocked_task_at_return {s : St} (h : Reachable ⟨true⟩ s) (hp : s.
   · intro l s' hs
     have hwork : l.isWork = true ∧ s'.phase = .returned := by
       cases l with
-      | go t => obtain ⟨_, hph, _⟩ := step_go hs; simp [hph] at hp
-      | batch k i p => obtain ⟨_, hph, _⟩ := step_batch hs; simp [hph] at hp
+      | go t dep => obtain ⟨_, hph, _⟩ := step_go hs; simp [hph] at hp
+      | batch k i p dep => obtain ⟨_, hph, _⟩ := step_batch hs; simp [hph] at hp
       | chain t ps => obtain ⟨_, hph, _⟩ := step_chain hs; simp [hph] at hp
       | idle => obtain ⟨_, hph, _⟩ := step_idle hs; simp [hph] at hp
       | ret => obtain ⟨_, hph, _⟩ := step_ret hs; simp [hph] at hp
@@ -220,8 +220,8 @@ theorem all_tasks_exit {s : St} (h : Reachable ⟨true⟩ s) (hp : s.phase = .re
         | release t =>
           obtain ⟨r, _, _, _, hl, rfl⟩ := step_release hs
           rw [took_eq h.idsOK (lookup_some_mem hl)]; exact ⟨hc, ho⟩
-        | go t => obtain ⟨_, hph, _⟩ := step_go hs; simp [hph] at hp
-        | batch k i p => obtain ⟨_, hph, _⟩ := step_batch hs; simp [hph] at hp
+        | go t dep => obtain ⟨_, hph, _⟩ := step_go hs; simp [hph] at hp
+        | batch k i p dep => obtain ⟨_, hph, _⟩ := step_batch hs; simp [hph] at hp
         | chain t ps => obtain ⟨_, hph, _⟩ := step_chain hs; simp [hph] at hp
         | idle => obtain ⟨_, hph, _⟩ := step_idle hs; simp [hph] at hp
         | ret => obtain ⟨_, hph, _⟩ := step_ret hs; simp [hph] at hp
@@ -234,7 +234,7 @@ theorem all_tasks_exit {s : St} (h : Reachable ⟨true⟩ s) (hp : s.phase = .re
 
 /-- The history of F-15a in the *unpatched* code: one Go task, the request returns (a failing
     non-null sibling), the task's body returns. -/
-def f15aHistory : List Label := [.go 0, .ret, .fin 0 ⟨5, false⟩]
+def f15aHistory : List Label := [.go 0 none, .ret, .fin 0 ⟨5, false⟩]
 
 /-- **no_blocked_task_at_return is false of the unpatched code** (negation witness, F-15a): the
     history above is an execution, it ends after the return with the task offering its resolution,
@@ -281,7 +281,7 @@ theorem no_blocked_task_at_return_partial {c : Cfg} {s : St} (h : Reachable c s)
 /-- Non-vacuity of the progress theorems: a chained history (pagination.go: `chain` on a Go promise)
     — the blocking receive loops once for the chained promise and returns after the chain task's. -/
 example :
-    (match runFrom ⟨true⟩ init [.go 0, .chain 1 [0], .idle, .fin 0 ⟨4, false⟩, .recvBlock 0, .fin 1 ⟨9, false⟩,
+    (match runFrom ⟨true⟩ init [.go 0 none, .chain 1 [0], .idle, .fin 0 ⟨4, false⟩, .recvBlock 0, .fin 1 ⟨9, false⟩,
         .recvBlock 1, .idleRet, .ret] 0 with
      | .ok s => some (s.delivered.map (·.1), s.running.length, s.blocked.length, s.phase)
      | .error _ => none) = some ([1, 0], 0, 0, .returned) := by rfl
@@ -296,8 +296,8 @@ theorem contract_keeps_model_clean {c : Cfg} {s : St} (h : ReachableWF c s) : s.
   | @step s s' l hr hwf hs ih =>
     have hi := hr.reachable.idsOK
     cases l with
-    | go t => obtain ⟨_, _, rfl, rfl⟩ := step_go hs; exact ih
-    | batch k item p => obtain ⟨_, _, rfl, rfl⟩ := step_batch hs; exact ih
+    | go t dep => obtain ⟨_, _, rfl, rfl, _⟩ := step_go hs; exact ih
+    | batch k item p dep => obtain ⟨_, _, rfl, rfl, _⟩ := step_batch hs; exact ih
     | chain t ps => obtain ⟨_, _, rfl, _, rfl⟩ := step_chain hs; exact ih
     | fin t r => obtain ⟨_, _, _, _, _, _, rfl⟩ := step_fin hs; exact ih
     | idle => obtain ⟨_, _, _, rfl⟩ := step_idle hs; exact ih
